@@ -33,9 +33,15 @@ TRUSTED_EXTRA = ["the recorder that wraps CphotAng.run / the EAS.CphotAng attrib
 COS_DEFAULT = float(np.cos(np.radians(1.5)))
 
 
+# the closed-form library functions of shower_properties.py (shower age, particle counts, track length, …): translated from the
+# working tree (Gen/Src/C08Lib.lean), theorems in Props/C08Lib.lean (with the sine laws of the two angles) — obligations of this property
+EXTRA_TARGETS = ["NssVerif.Props.C08Lib"]
+EXTRA_THEOREMS = property_theorems("C08Lib")
+
+
 def regen():
     import srctie
-    return srctie.regen("C08")
+    return {**srctie.regen("C08"), **srctie.regen("C08Lib")}
 
 
 def src_eas(ctx, beta, alt, E, lat, long, area, qe, thr, kd, kt, pe, cos):
@@ -597,6 +603,8 @@ def run(ctx: Ctx):
     constants(ctx, mods)
     stub_stream(ctx, mods)
     distance_stream(ctx, mods)
+    import libtie
+    libtie.c08(ctx)
     real_stream(ctx, mods)
 
 
